@@ -48,12 +48,18 @@ def run(ctx):
         rr = vlib.tlc("MC_Heap", cfg, timeout=600, workers=2, quiet=True)
         return sw, want, rr
     rejected = {}
-    for sw, want, rr in vlib.parallel([(lambda s=s, w=w: bad(s, w)) for s, w in SWITCHES], n=5):
+    bads = vlib.parallel([(lambda s=s, w=w: bad(s, w)) for s, w in SWITCHES], n=5)
+    for sw, want, rr in bads:
         got = vlib.violated_property(rr.out)
         rejected[sw] = got
         if rr.rc == 0 or not got or not re.fullmatch(want, got):
             ctx.note_inconclusive("MC_Heap with %s = FALSE: expected violation of %s, got %s (rc=%s)" % (sw, want, got, rr.rc))
     ev.cov["bad_library_variants_rejected"] = rejected
+    ev.cov["traces_validated_against_impl"] = 0
+    for sw, want, rr in bads:
+        if sw == "WipesOnClose" and rr.rc == 12:
+            ev.sample({"abstract_library": "WipesOnClose = FALSE (memFree instead of blobClose)", "violates": vlib.violated_property(rr.out),
+                       "counterexample": [lab for lab, st in vlib.parse_tlc_trace(rr.out)]})
 
     # ---- the real library
     drv = M.build_driver()
@@ -121,7 +127,8 @@ def run(ctx):
     ev.cov["weak_signal_secret_found_in_freed_block"] = hits
     ev.cov["secret_functions_in_contract"] = len(secret)
     ev.cov["functions"] = fns
-    ev.cov["exhaustive"] = "abstract machine: yes (3 allocations, 2 calls, every fault position); real code: enumerated exits x seeded data"
+    ev.cov["abstract_machine_exhaustive"] = True     # 3 allocations, 2 calls, every fault position
+    ev.cov["real_code"] = "enumerated exits (success, every argument-error exit of the contract, failed authentication, every fault position) x seeded data"
     n = 0
     for cid, evs in calls.items():
         if any(e["e"] == "Free" for e in evs) and n < 3:
